@@ -410,6 +410,21 @@ Section Walker.
     end.
 
   (* ---- walkMap ---- *)
+  Definition child_schema (sc : option Sc) (key : string) : option Sc :=
+    match sc with Some s => sc_field sch s key | None => None end.
+
+  (* the loop over fieldNames(): walk the field in every source, set the result on dest *)
+  Fixpoint walk_fields (rec : rec_t) (sc : option Sc) (alias : option nat) (srcs : list (option node))
+           (names : list string) (d : node) : res node :=
+    match names with
+    | [] => Ok d
+    | key :: rest =>
+        let fv := map (field_of key) (cur_srcs alias d srcs) in
+        do r <- rec (child_schema sc key) alias fv;
+        do d' <- set_field_w key r d;
+        walk_fields rec sc alias srcs rest d'
+    end.
+
   Definition walk_map (rec : rec_t) (sc : option Sc) (alias : option nat) (srcs : list (option node))
     : res (option wres) :=
     do vr <- v_map vis srcs;
@@ -417,16 +432,7 @@ Section Walker.
     match resolve alias srcs1 (snd vr) with
     | None => Ok None
     | Some (d0, keep, inpl, alias') =>
-        do d <- (fix go (names : list string) (d : node) : res node :=
-                   match names with
-                   | [] => Ok d
-                   | key :: rest =>
-                       let fv := map (field_of key) (cur_srcs alias' d srcs1) in
-                       let sc' := match sc with Some s => sc_field sch s key | None => None end in
-                       do r <- rec sc' alias' fv;
-                       do d' <- set_field_w key r d;
-                       go rest d'
-                   end) (field_names (cur_srcs alias' d0 srcs1)) d0;
+        do d <- walk_fields rec sc alias' srcs1 (field_names (cur_srcs alias' d0 srcs1)) d0;
         Ok (Some (mkW d keep inpl))
     end.
 
@@ -522,6 +528,67 @@ Section Walker.
          end) src (Ok dst).
 
   (* ---- setAssociativeSequenceElements ---- *)
+  Definition is_dead (r : option wres) : bool :=          (* IsMissingOrNull(val) || IsEmptyMap(val) *)
+    match r with
+    | None => true
+    | Some w => is_null (w_node w) || is_empty_map (w_node w)
+    end.
+
+  (* "make sure the key is set on the field" *)
+  Definition ensure_keys (vk vv : list string) (val : node) : res node :=
+    fold_left
+      (fun (acc : res node) (kv : string * string) =>
+         do val <- acc;
+         if negb (has_field (fst kv) val) && negb (String.eqb (snd kv) "") then
+           if String.eqb (fst kv) "" then set_scalar (Some (Scalar TNone SPlain (snd kv))) val
+           else set_field nonstr (fst kv) (Some (Scalar TNone SPlain (snd kv))) false val
+         else Ok val) (combine vk vv) (Ok val).
+
+  (* delete the element from dest: once per valid key *)
+  Definition delete_elem (vk vv : list string) (des : list node) : res (list node) :=
+    fold_left (fun (acc : res (list node)) (_ : string) =>
+                 do l <- acc; element_set None vk vv l) vk (Ok des).
+
+  (* state of the loop over valuesList: dest elements, itemsToBeAdded, the last validKeys *)
+  Definition astate := (list node * list node * list string)%type.
+
+  Definition assoc_step (rec : rec_t) (esc : option Sc) (alias : option nat) (srcs : list (option node))
+             (vl : list (list string)) (ks : list string) (st : astate) (values : list string) : res astate :=
+    let '(des, items, vk_last) := st in
+    match values with
+    | [] => Ok st
+    | _ =>
+        let (vk, vv) := validate_keys vl values ks in
+        (* elementValueList validates once more against this tuple alone *)
+        let (ek, ev) := validate_keys [vv] vv vk in
+        let cur := cur_srcs alias (Seq des) srcs in
+        let idxs := map (elem_index ek ev) cur in
+        let fv := map (fun si => elem_at (fst si) (snd si)) (combine cur idxs) in
+        do r <- rec esc alias fv;
+        if is_dead r then
+          do des' <- delete_elem vk vv des;
+          Ok (des', items, vk)
+        else
+          match r with
+          | None => Ok st (* unreachable: dead *)
+          | Some w =>
+              do val <- ensure_keys vk vv (w_node w);
+              let des' := if w_inplace w then
+                            match hd None idxs with
+                            | Some i => replace_nth i val des
+                            | None => des
+                            end
+                          else des in
+              do items' <- element_set (Some val) vk vv items;
+              Ok (des', items', vk)
+          end
+    end.
+
+  Definition assoc_loop (rec : rec_t) (esc : option Sc) (alias : option nat) (srcs : list (option node))
+             (vl : list (list string)) (ks : list string) (todo : list (list string)) (st : astate) : res astate :=
+    fold_left (fun (acc : res astate) (values : list string) =>
+                 do st <- acc; assoc_step rec esc alias srcs vl ks st values) todo (Ok st).
+
   Definition set_assoc (rec : rec_t) (sc : option Sc) (alias : option nat)
              (srcs : list (option node)) (values_list : list (list string)) (ks : list string)
              (d : node) (inpl : bool) (keep : bool) : res (option wres) :=
@@ -529,49 +596,7 @@ Section Walker.
     | Seq des0 =>
         let esc := match sc with Some s => sc_elems sch s | None => None end in
         let vl := if Nat.ltb 1 (List.length ks) then merge_values values_list else values_list in
-        do st <- fold_left
-                   (fun (acc : res (list node * list node * list string)) (values : list string) =>
-                      do st <- acc;
-                      let '(des, items, vk_last) := st in
-                      match values with
-                      | [] => Ok st
-                      | _ =>
-                          let (vk, vv) := validate_keys vl values ks in
-                          (* elementValueList validates once more against this tuple alone *)
-                          let (ek, ev) := validate_keys [vv] vv vk in
-                          let cur := cur_srcs alias (Seq des) srcs in
-                          let idxs := map (elem_index ek ev) cur in
-                          let fv := map (fun si => elem_at (fst si) (snd si)) (combine cur idxs) in
-                          do r <- rec esc alias fv;
-                          let dead := match r with
-                                      | None => true
-                                      | Some w => is_null (w_node w) || is_empty_map (w_node w)
-                                      end in
-                          if dead then
-                            do des' <- fold_left (fun (acc : res (list node)) (_ : string) =>
-                                                    do l <- acc; element_set None vk vv l) vk (Ok des);
-                            Ok (des', items, vk)
-                          else
-                            match r with
-                            | None => Ok st (* unreachable: dead *)
-                            | Some w =>
-                                do val <- fold_left
-                                            (fun (acc : res node) (kv : string * string) =>
-                                               do val <- acc;
-                                               if negb (has_field (fst kv) val) && negb (String.eqb (snd kv) "") then
-                                                 if String.eqb (fst kv) "" then set_scalar (Some (Scalar TNone SPlain (snd kv))) val
-                                                 else set_field nonstr (fst kv) (Some (Scalar TNone SPlain (snd kv))) false val
-                                               else Ok val) (combine vk vv) (Ok (w_node w));
-                                let des' := if w_inplace w then
-                                              match hd None idxs with
-                                              | Some i => replace_nth i val des
-                                              | None => des
-                                              end
-                                            else des in
-                                do items' <- element_set (Some val) vk vv items;
-                                Ok (des', items', vk)
-                            end
-                      end) vl (Ok (des0, [], []));
+        do st <- assoc_loop rec esc alias srcs vl ks vl (des0, [], []);
         let '(des, items, vk_last) := st in
         do out <- match vl with
                   | [] => Ok (des, inpl)
